@@ -222,6 +222,40 @@ func (p *PDU) RespReadBits() ([]bool, error) {
 	return ret, nil
 }
 
+// RespReadBitsCount reads count coils or discrete inputs from a response
+// PDU. The response carries the bits packed into bytes, so the number of
+// values is given by the request, not by the response.
+func (p *PDU) RespReadBitsCount(count int) ([]bool, error) {
+	switch p.FunctionCode {
+	case FuncCodeReadCoils, FuncCodeReadDiscreteInputs:
+		// ok
+	default:
+		return []bool{}, errors.New("invalid function code to read bits")
+	}
+
+	if len(p.Data) < 1 {
+		return []bool{}, errors.New("not enough data")
+	}
+
+	byteCount := int(p.Data[0])
+
+	if byteCount != (count+7)/8 {
+		return []bool{}, fmt.Errorf("RespReadBitsCount: got %v bytes for %v bits", byteCount, count)
+	}
+
+	if len(p.Data) < 1+byteCount {
+		return []bool{}, errors.New("RespReadBitsCount not enough data")
+	}
+
+	ret := make([]bool, count)
+
+	for i := range ret {
+		ret[i] = (p.Data[1+i/8]>>(i%8))&0x1 == 0x1
+	}
+
+	return ret, nil
+}
+
 // RespReadRegs reads register values from a
 // response PDU.
 func (p *PDU) RespReadRegs() ([]uint16, error) {
